@@ -437,7 +437,9 @@ def run_shard_robust(binary, cases, workdir, tag, model, timeout):
     while pending:
         path = os.path.join(workdir, '%s_%d.txt' % (tag, rnd))
         write_script(path, pending, model)
-        rc, out, timed_out = run_bin(binary, path, timeout)
+        # the time limit grows with the amount of work in the shard (a hang is a case that exceeds it on its own)
+        nops = sum(len(c.meta['model_ops'] if model else c.ops) for c in pending)
+        rc, out, timed_out = run_bin(binary, path, timeout + 0.1 * len(pending) + 0.002 * nops)
         parsed = parse_output(out)
         if rc == 0 and not timed_out:
             results.update(parsed)
